@@ -424,7 +424,7 @@ def _register_capabilities_hooks(converter: cattrs.Converter) -> cattrs.Converte
     def _code_action_hook(
         object_: Any, _: type
     ) -> Union[lsp_types.Command, lsp_types.CodeAction]:
-        if "command" in object_:
+        if "command" in object_ and isinstance(object_["command"], str):
             return converter.structure(object_, lsp_types.Command)
         else:
             return converter.structure(object_, lsp_types.CodeAction)
